@@ -71,6 +71,17 @@ Fixpoint f_resolve_list (sel : fixup -> sel_res) (fail_is_err : bool) (fxs : lis
     end
   end.
 
+(* the pre-check of bind_label on the flat buffers: every fixup that would be patched must be encodable, else the bind is refused *)
+Definition f_bind_precheck (l sec : nat) (off : Z) (fxs : list fixup) (secs : list (list Z)) : bool :=
+  forallb (fun fx =>
+    match bind_sel l sec off fx with
+    | STry lay lo =>
+      match write_offset (fmt_of_kind (fx_kind fx)) (read_word (nth (fx_sec fx) secs []) (fx_off fx) (vnat (fx_kind fx)))
+                         (disp (lay_so lay) (lay_to lay) lo (fx_off fx) (fx_rel fx)) with
+      | Some _ => true | None => false end
+    | _ => true
+    end) fxs.
+
 Definition fstep (f : fstate) (o : op) : fstate * err :=
   let len := zlen (f_cur_sec f) in
   let with_rel (secs : list (list Z)) (pr : list (nat * nat)) (u : Z) (rl : list reloc) : fstate :=
@@ -137,6 +148,7 @@ Definition fstep (f : fstate) (o : op) : fstate * err :=
     | None => (f, EInvalidLabel)
     | Some (Some _) => (f, EAlreadyBound)
     | Some None =>
+      if negb (f_bind_precheck l (f_cur f) len (f_pending f) (f_secs f)) then (f, EInvalidDisp) else
       let '(prk, rl, nrel) := bind_rel l (f_cur f) len (f_pending_rel f) (f_relocs f) in
       let w := f_resolve_list (bind_sel l (f_cur f) len) true (f_pending f) (f_secs f) in
       ({| f_secs := fw_secs w; f_cur := f_cur f; f_labels := upd (f_labels f) l (Some (f_cur f, len)); f_pending := fw_kept w;
